@@ -6,6 +6,8 @@
 #include <tbb/global_control.h>
 #include <tbb/parallel_for.h>
 #include "vp_parmcb.hpp"
+#include <thread>
+#include <atomic>
 using namespace vp;
 static std::size_t active() { return tbb::global_control::active_value(tbb::global_control::max_allowed_parallelism); }
 static Verdict seq(const std::vector<std::size_t> &ns) {
@@ -33,13 +35,18 @@ int main(int argc, char **argv) {
     Stats st;
     long idx = 0;
     int N = thorough() ? 16 : 8;
-    for (int a = 1; a <= N; a++) for (int b = 1; b <= N; b++) for (int c = 1; c <= N; c += (thorough() ? 1 : 3)) {
+    // values above the number of cores available to the process are legal too ("for every n >= 1")
+    int hw = (int) std::thread::hardware_concurrency();
+    std::vector<int> vals; for (int v = 1; v <= N; v++) vals.push_back(v);
+    vals.push_back(hw); vals.push_back(hw + 1); vals.push_back(2 * hw + 3); vals.push_back(67);
+    for (int a : vals) for (int b : vals) for (int c : vals) {
+        if (!thorough() && ((a * 31 + b * 7 + c) % 3) != 0 && !(a > N || b > N || c > N)) continue;
         if ((idx++ % nshards) != shard) continue;
         Verdict v = seq({(std::size_t) a, (std::size_t) b, (std::size_t) c});
         st.evaluations++; st.distinct.insert(std::to_string(a) + "," + std::to_string(b) + "," + std::to_string(c));
         if (!v.ok()) { st.violations++; if (st.counts["viol"]++ < 2) emit_violation("set_global_tbb_concurrency", v.kind, v.detail, "{\"seq\":[" + std::to_string(a) + "," + std::to_string(b) + "," + std::to_string(c) + "]}"); }
         if (st.samples.size() < 3) st.sample("[" + std::to_string(a) + "," + std::to_string(b) + "," + std::to_string(c) + "]");
     }
-    st.print("e3_knob", true, "every call sequence (n1,n2,n3) with values in 1..N against the real oneTBB active_value, each followed by a parallel_for", "N=" + std::to_string(N));
+    st.print("e3_knob", true, "call sequences (n1,n2,n3) with values in 1..N plus hw, hw+1, 2hw+3, 67 (values above the core count are legal) against the real oneTBB active_value, each followed by a parallel_for", "N=" + std::to_string(N));
     return 0;
 }
